@@ -7,7 +7,7 @@ from typing import Dict, List, Optional
 
 from ..cfg import analysis, FuncAnalysis, Node, N, E, is_handle_error_call
 from ..lib import prov, is_convert_call, convert_value_arg, exc_class_of_ctor
-from ..model import AnalysisError, call_attr, kwarg, unparse, walk_shallow, norm_stmt, names_in
+from ..model import AnalysisError, call_attr, kwarg, unparse, walk_shallow, norm_stmt, names_in, kwarg_given
 
 COMBS = ["&", "|", "^", "~"]
 
@@ -324,7 +324,7 @@ def r09e(run):
     FLAGS = ("no_data_loss", "no_explicit_cast")
     conv = [(n, c) for n, c in fa.all_calls() if is_convert_call(fa, n, c) and branch_of(fa, n) == "|"]
     free = [n for n, c in conv if not c18.flag_guards(fa, n, FLAGS)
-            and not any(call_attr(x) == "enter" and kwarg(x, "options") is not None
+            and not any(call_attr(x) == "enter" and kwarg_given(x, "options") is not None
                         for m in fa.cfg.dominators()[n] if m.kind == "with" for x in fa.calls_at(m))]
     run.check("R09e", f, "the union's last stage converts with the caller's own options, unconditionally", bool(free),
               construct="no unconditional common stage in the union",
